@@ -66,6 +66,10 @@ func main() {
 	switch os.Args[1] {
 	case "worker":
 		mc.WorkerMain()
+	case "leak":
+		n, _ := strconv.Atoi(os.Args[3])
+		k, _ := strconv.Atoi(os.Args[4])
+		props.LeakProbe(os.Args[2], n, k)
 	case "ilvdet":
 		n, _ := strconv.Atoi(os.Args[3])
 		props.C14Determinism(os.Args[2], n, nil)
